@@ -15,7 +15,7 @@ RULE = (
     "case = block of (loss configuration, data) pairs for one loss kind: N 5-120, D 1-4, E 1-4; normal, heavy-tailed, "
     "constant, two-valued, tied, monotone, random-walk coordinates at scales 1e-2..1e2; every option (Minkowski p in "
     "{1,1.5,2,3}; MSM identity / inverse-variance / symmetric matrix, standardised or not, default 18 moments and custom "
-    "calculators; Fourier ideal/gaussian with f in (0,1]; GSL-div nb_values 2-15/default, word lengths 1-8/default; "
+    "calculators; every loss object is evaluated a second time on data of another length and ensemble size; Fourier ideal/gaussian with f in (0,1]; GSL-div nb_values 2-15/default, word lengths 1-8/default; "
     "likelihood silverman/scott/number), coordinate weights (incl. zeros) and per-coordinate filters (affine, cumsum, "
     "square, HP cycle, log-HP, diff-log-demean). Also the raw 18-moment summary against explicit formulas. "
     "Agreement |got-ref| <= 1e-9 max(1,|ref|,sum|terms|) (GSL 1e-12). Non-trivial = non-default options and (E>=2 or a "
@@ -30,7 +30,7 @@ ASSUMPTIONS = [
 ]
 REQUIRED_COUNTERS = {
     "minkowski": 50, "msm": 50, "fourier": 50, "gsl": 50, "likelihood": 50, "moments18": 50,
-    "with_filters": 40, "with_weights": 40, "ensemble_ge2": 40,
+    "with_filters": 40, "with_weights": 40, "ensemble_ge2": 40, "second_call_same_object": 150,
 }
 SHARDS = {"quick": 16, "thorough": 16}
 KINDS = ["minkowski", "msm", "fourier", "gsl", "likelihood", "moments18"]
@@ -156,6 +156,32 @@ def run_case(desc, ctx):
                 if mech:
                     v["mechanism"] = mech
             out["violations"].append(v)
+        # the same loss object on data of another length and ensemble size: the definition applies to every call, not only the first
+        N2 = int(rng.integers(lo_n, 121 if kind != "likelihood" else 60))
+        E2 = int(rng.integers(1, 5))
+        if kind == "gsl" and d.get("nb_word_lengths") is not None:
+            N2 = max(N2, d["nb_word_lengths"] + 1)
+        real2, sim2, kinds2 = G.gen_data(rng, N2, D, E2, d["filters"])
+        flags2 = {}
+        try:
+            ref2, _ = G.reference_value(d, sim2, real2, flags2)
+        except Exception:  # noqa: BLE001
+            ref2 = None
+        if ref2 is not None and ref2 == ref2 and not flags2.get("near_edge"):
+            try:
+                with quiet():
+                    got2 = float(loss.compute_loss(sim2.copy(), real2.copy()))
+                c["second_call_same_object"] = c.get("second_call_same_object", 0) + 1
+                if not close(got2, ref2, rel, flags2.get("abs_scale", 0.0) if kind != "gsl" else 0.0):
+                    v = {"msg": f"{kind}: second evaluation on the same object (N {N}->{N2}, E {E}->{E2}): compute_loss = {got2!r}, definition gives {ref2!r} (options {d})",
+                         "witness": {"loss": d, "first": {"N": N, "E": E}, "second": {"N": N2, "E": E2, "real": real2, "sim": sim2}}}
+                    if kind == "gsl":
+                        mech = classify_gsl(d, sim2, real2, got2)
+                        if mech:
+                            v["mechanism"] = mech
+                    out["violations"].append(v)
+            except Exception as e:  # noqa: BLE001
+                out["violations"].append({"msg": f"{kind}: second evaluation on the same object raised {type(e).__name__}: {e}", "witness": {"loss": d, "N2": N2, "E2": E2}})
         if "sample" not in out and desc["i"] == 0:
             out["sample"] = {"loss": d, "N": N, "D": D, "E": E, "got": got, "reference": ref}
     return out
